@@ -229,8 +229,12 @@ impl TypeCollector {
         visitor: &V,
         config: &GenerateConfig,
     ) -> Vec<StructContext> {
-        used_structs
-            .iter()
+        // used_structs is a HashMap: emit the declarations in name order, not hash order
+        let mut sorted_structs: Vec<_> = used_structs.iter().collect();
+        sorted_structs.sort_by(|a, b| a.0.cmp(b.0));
+
+        sorted_structs
+            .into_iter()
             .map(|(name, struct_info)| {
                 StructContext::new(config).from_struct_info(name, struct_info, visitor)
             })
